@@ -207,12 +207,28 @@ def padded_population(rng):
     return pop
 
 
+def numbered_population(rng):
+    """ten and more lights, groups and locations whose names end in numbers
+    of different lengths ("Spot 2", "Spot 10"): `repeat all`, `repeat group`
+    and `repeat location` bind each exactly once, in the order of the names
+    as plain text"""
+    n = rng.choice([10, 11, 12, 14, 21])
+    base = rng.choice(['Spot ', 'Lamp', 'L-'])
+    return [{'label': '{}{}'.format(base, k + 1),
+             'group': 'Zone {}'.format(k % rng.choice([3, 11, 12]) + 1),
+             'location': 'Floor {}'.format(k % rng.choice([2, 10, 13]) + 1),
+             'kind': rng.choice(['plain', 'plain', 'plain', 'mz']),
+             'zones': 8, 'color': [k, 2 * k, 3 * k, 2700], 'power': 0}
+            for k in range(n)]
+
+
 def run_shard(ctx):
     n = N[ctx.tier]
     for i in range(ctx.shard, n, ctx.nshards):
         out = progcheck.one_case(
             ctx, i, PROFILE, 'c04',
-            pop_fn=padded_population if i % 10 in (2, 6) else None,
+            pop_fn=padded_population if i % 10 in (2, 6) else
+            numbered_population if i % 20 == 3 else None,
             prog_fn=crossing if i % 10 == 9 else
             own_bounds if i % 10 == 4 else None,
             made_under=gen.random_population if i % 10 == 7 else None)
